@@ -484,6 +484,7 @@ def sites_of(node, acc=None):
 R("rx.on_error_resume_next_factory", 2, lambda c: {"f": c.fn("action")},
   lambda w, n, a, i: rx.on_error_resume_next(i[0], lambda e: (F(w, n, a, "f")(), i[1])[1]), {"cb"})
 
-# operators that do not pass an upstream on_error through unchanged (used by C09 to pick fault sites)
-ERROR_OPAQUE = {"catch", "rx.catch", "rx.catch_with_iterable", "catch_handler", "retry", "on_error_resume_next",
+# operators that do not pass an upstream on_error through unchanged (used by C09 to pick fault sites);
+# amb drops whatever its losing input does, errors included
+ERROR_OPAQUE = {"amb", "rx.amb", "catch", "rx.catch", "rx.catch_with_iterable", "catch_handler", "retry", "on_error_resume_next",
                 "rx.on_error_resume_next", "rx.on_error_resume_next_factory", "materialize", "dematerialize"}
